@@ -47,7 +47,8 @@ USER = auth(USER0, "safely_unquote_auth_item")
 PW = auth(PW0, "safely_unquote_password")
 PATH6 = "ite(quoted, %s, %s)" % (Q % PATH5, PATH5)
 FRAG3 = "ite(quoted, %s, %s)" % (Q % FRAG2, FRAG2)
-NETLOC = "uf('unsplit_netloc', 'Str', %s, %s, opt(%s), %s).lower()" % (USER, PW, HOST3, PORT)
+# only the host is lower-cased: the userinfo is kept exactly when strip_authentication is off (C05)
+NETLOC = "uf('unsplit_netloc', 'Str', %s, %s, opt(%s.lower()), %s)" % (USER, PW, HOST3, PORT)
 QUERY_OUT = "uf('safe_serialize_qsl', 'Str', ite(quoted, uf('safely_quote_qsl', 'Seq[%s]', g_Q), g_Q))" % ITEM
 RECORD = "uf('SplitResult', 'Obj', %s, %s, %s, %s, %s)" % (SCHEME, NETLOC, PATH6, QUERY_OUT, FRAG3)
 UNSPLIT = "uf('urlunsplit', 'Str', %s)" % RECORD
@@ -70,10 +71,11 @@ ENSURES = [
     "implies(%s and unsplit, result == obj(ite(%s, %s[2:], %s)))" % (OK, NOSCHEME, UNSPLIT, UNSPLIT),
 ]
 
-NH1 = "uf('re_sub', 'Str', CONTROL_CHARS_RE, '', old(hostname).strip().lower())"
+NH1 = "uf('decode_punycode_hostname', 'Str', uf('re_sub', 'Str', CONTROL_CHARS_RE, '', old(hostname)).strip().lower())"
 NH2 = "uf('re_sub', 'Str', ite(normalize_amp, IRRELEVANT_SUBDOMAIN_AMP_RE, IRRELEVANT_SUBDOMAIN_RE), '', %s)" % NH1
 NH3 = "ite(normalize_amp and %s.startswith('amp-'), %s[4:], %s)" % (NH2, NH2, NH2)
-GU = "uf('urlsplit', 'Obj', uf('ensure_protocol', 'Str', ite(infer_redirection, uf('infer_redirection', 'Str', old(url)), old(url)).strip()))"
+GU = ("uf('urlsplit', 'Obj', uf('ensure_protocol', 'Str', uf('re_sub', 'Str', CONTROL_CHARS_RE, '',"
+      " ite(infer_redirection, uf('infer_redirection', 'Str', old(url)), old(url))).strip()))")
 
 MODULE = {
     "file": "ural/normalize_url.py", "auto": True,
@@ -121,8 +123,9 @@ MODULE = {
     "functions": {
         "normalize_hostname": {
             "types": {"hostname": "Str", "normalize_amp": "Bool", "pattern": "Obj"}, "returns": "Str",
-            # strip + lower-case, control characters out, irrelevant labels out (AMP ones iff normalize_amp), leading 'amp-' out iff normalize_amp, IDNA-decoded
-            "ensures": ["result == uf('decode_punycode_hostname', 'Str', %s)" % NH3],
+            # normalize_url's host steps in normalize_url's order: control characters out, stripped, lower-cased, IDNA-decoded, then irrelevant labels out
+            # (AMP ones iff normalize_amp) and a leading 'amp-' out iff normalize_amp
+            "ensures": ["result == %s" % NH3],
             # naming of the (deterministic) result for callers
             "assumed_ensures": ["result == uf('normalize_hostname', 'Str', old(hostname), normalize_amp)"],
         },
@@ -130,7 +133,7 @@ MODULE = {
             "types": {"url": "Str", "normalize_amp": "Bool", "infer_redirection": "Bool", "splitted": "Obj", "g_ok": "Bool"},
             "returns": "Opt[Str]", "isinstance": {"url,SplitResult": False},
             "ghost_entry": ["g_ok = False"],
-            "ghost_after": {"splitted = urlsplit(ensure_protocol(url.strip()))": ["g_ok = True"]},
+            "ghost_after": {"splitted = urlsplit(ensure_protocol(url))": ["g_ok = True"]},
             "ensures": [
                 "implies(not g_ok, result is None)",
                 "implies(g_ok and not truthy(%s.hostname), result is None)" % GU,
@@ -151,7 +154,7 @@ MODULE = {
             "ghost_after": {"port = splitted.port": ["g_ok = True", "g_S = splitted"], "if splitted.hostname:": ["g_DF = domain_filter"]},
             "ghost_before": {"fragment = safely_unquote_fragment(fragment)": ["g_Q = qsl"]},
             "ensures": ENSURES,
-            "asserts": {"netloc = unsplit_netloc(user, password, hostname, port)": [
+            "asserts": {"netloc = unsplit_netloc(...)": [
                 "scheme == %s" % SCHEME, "hostname == opt(%s)" % HOST3, "port == %s" % PORT, "user == %s" % USER, "password == %s" % PW,
                 "path == %s" % PATH6, "fragment == %s" % FRAG3, "query == %s" % QUERY_OUT]},
         },
